@@ -376,7 +376,7 @@ pub fn load_known(verif_dir: &Path) -> Result<Vec<KnownFinding>, String> {
 
 fn match_known<'a>(known: &'a [KnownFinding], prop: &str, oracle: &str, tags: &[String]) -> Option<&'a KnownFinding> {
     known.iter().find(|k| {
-        k.status == "known" && k.property == prop && k.oracle == oracle && k.tags.iter().all(|t| tags.contains(t))
+        k.status == "known" && k.property == prop && (k.oracle == "*" || k.oracle == oracle) && k.tags.iter().all(|t| tags.contains(t))
     })
 }
 
@@ -698,11 +698,12 @@ pub fn parent<F: Family>(opts: &Opts) -> i32 {
         }
     }
 
-    // ---- minimise, confirm, classify
+    // ---- classify (known finding or not), minimise the unknown ones, confirm
     let mut violations: Vec<(String, PathBuf)> = Vec::new();
     let mut known_seen: Vec<String> = Vec::new();
-    let mut gi = 0;
-    let max_groups = 16;
+    // known finding index -> (groups, occurrences, first (idx, oracle, tags, detail, scenario))
+    let mut known_hits: BTreeMap<usize, (u64, u64, Option<(u64, String, Vec<String>, String, Value)>)> = BTreeMap::new();
+    let mut unknown: Vec<&Group> = Vec::new();
     for (_key, g) in groups.iter() {
         if g.oracle.starts_with("HARNESS") {
             harness_errors.push(format!(
@@ -713,36 +714,100 @@ pub fn parent<F: Family>(opts: &Opts) -> i32 {
             ));
             continue;
         }
-        let (idx, detail, scn) = match &g.first {
-            Some(f) => f.clone(),
-            None => continue,
-        };
-        gi += 1;
-        if gi > max_groups {
-            // still a violation; report unminimised file of the first ones only
+        if g.first.is_none() {
             continue;
         }
-        let base = format!("{}-{}-{}-g{}", prop, opts.seed, idx, gi);
+        let ki = known.iter().position(|k| {
+            k.status == "known"
+                && k.property == prop
+                && (k.oracle == "*" || k.oracle == g.oracle)
+                && k.tags.iter().all(|t| g.tags.contains(t))
+        });
+        match ki {
+            Some(ki) => {
+                let e = known_hits.entry(ki).or_insert((0, 0, None));
+                e.0 += 1;
+                e.1 += g.count;
+                let (idx, detail, scn) = g.first.clone().unwrap();
+                let better = match &e.2 {
+                    None => true,
+                    Some((i, ..)) => idx < *i,
+                };
+                if better {
+                    e.2 = Some((idx, g.oracle.clone(), g.tags.clone(), detail, scn));
+                }
+            }
+            None => unknown.push(g),
+        }
+    }
+    let write_raw = |base: &str, idx: u64, oracle: &str, tags: &[String], detail: &str, scn: &Value| -> Option<PathBuf> {
         let raw = replay_dir.join(format!("{}.raw.json", base));
-        let min = replay_dir.join(format!("{}.json", base));
         let rf = ReplayFile {
             property: prop.to_string(),
             seed: opts.seed,
             index: idx,
-            oracle: g.oracle.clone(),
-            tags: g.tags.clone(),
-            detail: detail.clone(),
+            oracle: oracle.to_string(),
+            tags: tags.to_vec(),
+            detail: detail.to_string(),
             minimised: false,
-            scenario: scn,
+            scenario: scn.clone(),
         };
-        if let Err(e) = std::fs::write(&raw, serde_json::to_string_pretty(&rf).unwrap()) {
-            println!("HARNESS-ERROR cannot write replay file: {}", e);
-            return 2;
+        match std::fs::write(&raw, serde_json::to_string_pretty(&rf).unwrap()) {
+            Ok(()) => Some(raw),
+            Err(_) => None,
         }
+    };
+    let confirms = |outcome: &ChildOutcome, oracle: &str, tags: &[String]| -> bool {
+        match outcome {
+            ChildOutcome::Violation { oracle: o, tags: t, .. } => o == oracle && t == tags,
+            ChildOutcome::Hang => oracle.ends_with(".hang"),
+            ChildOutcome::Abort(_) => oracle.ends_with(".abort"),
+            _ => false,
+        }
+    };
+    // known findings: one line per listed finding, confirmed on its first occurrence
+    for (ki, (ngroups, count, first)) in &known_hits {
+        let kf = &known[*ki];
+        let (idx, oracle, tags, detail, scn) = first.clone().unwrap();
+        let base = format!("{}-{}-{}-known{}", prop, opts.seed, idx, ki);
+        let Some(raw) = write_raw(&base, idx, &oracle, &tags, &detail, &scn) else {
+            println!("HARNESS-ERROR cannot write replay file");
+            return 2;
+        };
+        let outcome = run_replay_child(prop, &raw, Duration::from_secs(20));
+        if !confirms(&outcome, &oracle, &tags) {
+            harness_errors.push(format!(
+                "known finding occurrence {} (run {}) did not reproduce on replay: {:?}",
+                oracle, idx, outcome
+            ));
+            continue;
+        }
+        let line = format!(
+            "KNOWN-FINDING: property={} {} [occurrences={} in {} (oracle,tags) groups; first: oracle={} run={} replay={}]",
+            prop,
+            kf.what_fails,
+            count,
+            ngroups,
+            oracle,
+            idx,
+            raw.display()
+        );
+        println!("{}", line);
+        known_seen.push(line);
+    }
+    // unknown violations
+    let max_min = 10;
+    for (gi, g) in unknown.iter().enumerate() {
+        let (idx, detail, scn) = g.first.clone().unwrap();
+        let base = format!("{}-{}-{}-g{}", prop, opts.seed, idx, gi + 1);
+        let Some(raw) = write_raw(&base, idx, &g.oracle, &g.tags, &detail, &scn) else {
+            println!("HARNESS-ERROR cannot write replay file");
+            return 2;
+        };
+        let min = replay_dir.join(format!("{}.json", base));
         let is_hang = g.oracle.ends_with(".hang") || g.oracle.ends_with(".abort");
         let mut final_path = raw.clone();
-        if !is_hang {
-            // minimise in a child with a timeout
+        if !is_hang && gi < max_min {
             let budget = if tier == Tier::Quick { 1500 } else { 4000 };
             let mut child = Command::new(self_exe())
                 .arg("minimise-child")
@@ -775,31 +840,12 @@ pub fn parent<F: Family>(opts: &Opts) -> i32 {
                 final_path = min.clone();
             }
         }
-        // confirm in a fresh process
-        let outcome = run_replay_child(prop, &final_path, Duration::from_secs(20));
-        let confirmed = match (&outcome, is_hang) {
-            (ChildOutcome::Violation { oracle, tags, .. }, false) => *oracle == g.oracle && *tags == g.tags,
-            (ChildOutcome::Hang, true) => g.oracle.ends_with(".hang"),
-            (ChildOutcome::Abort(_), true) => g.oracle.ends_with(".abort"),
-            _ => false,
-        };
-        if !confirmed && final_path != raw {
-            // fall back to the raw file
-            let o2 = run_replay_child(prop, &raw, Duration::from_secs(20));
-            if let ChildOutcome::Violation { oracle, tags, .. } = &o2 {
-                if *oracle == g.oracle && *tags == g.tags {
-                    final_path = raw.clone();
-                }
-            }
+        let mut outcome = run_replay_child(prop, &final_path, Duration::from_secs(20));
+        if !confirms(&outcome, &g.oracle, &g.tags) && final_path != raw {
+            final_path = raw.clone();
+            outcome = run_replay_child(prop, &final_path, Duration::from_secs(20));
         }
-        let outcome = run_replay_child(prop, &final_path, Duration::from_secs(20));
-        let confirmed = match (&outcome, is_hang) {
-            (ChildOutcome::Violation { oracle, tags, .. }, false) => *oracle == g.oracle && *tags == g.tags,
-            (ChildOutcome::Hang, true) => g.oracle.ends_with(".hang"),
-            (ChildOutcome::Abort(_), true) => g.oracle.ends_with(".abort"),
-            _ => false,
-        };
-        if !confirmed {
+        if !confirms(&outcome, &g.oracle, &g.tags) {
             harness_errors.push(format!(
                 "violation {} (run {}) did not reproduce on replay of {}: {:?}",
                 g.oracle,
@@ -816,38 +862,16 @@ pub fn parent<F: Family>(opts: &Opts) -> i32 {
             ChildOutcome::Violation { detail, .. } => detail.clone(),
             _ => detail,
         };
-        if let Some(kf) = match_known(&known, prop, &g.oracle, &g.tags) {
-            let line = format!(
-                "KNOWN-FINDING: property={} {} [oracle={} tags={} occurrences={} replay={}]",
-                prop,
-                kf.what_fails,
-                g.oracle,
-                g.tags.join(","),
-                g.count,
-                final_path.display()
-            );
-            println!("{}", line);
-            known_seen.push(line);
-        } else {
-            println!(
-                "[{}] violation oracle={} tags=[{}] occurrences={} first_run={} :: {}",
-                prop,
-                g.oracle,
-                g.tags.join(","),
-                g.count,
-                idx,
-                detail
-            );
-            violations.push((g.oracle.clone(), final_path.clone()));
-        }
-    }
-    if gi > max_groups {
         println!(
-            "[{}] {} further violation groups not minimised (first {} reported)",
+            "[{}] violation oracle={} tags=[{}] occurrences={} first_run={} :: {}",
             prop,
-            gi - max_groups,
-            max_groups
+            g.oracle,
+            g.tags.join(","),
+            g.count,
+            idx,
+            detail
         );
+        violations.push((g.oracle.clone(), final_path.clone()));
     }
 
     // ---- reach requirements
